@@ -56,7 +56,7 @@ def edit_or_revert(r, p, past, kinds=None, p_revert=0.25):
 
 def history_c01(r, quick):
     p0 = vprogs.random_prog(r, nmem=r.choice([2, 3, 3, 4]), nplain=r.choice([1, 2]), nvar=2, hidden_p=0.2,
-                            init_p=0.25, twins_p=0.25, late_p=0.25, shapes_p=0.5, factory_p=0.25)
+                            init_p=0.25, twins_p=0.25, late_p=0.25, shapes_p=0.5, factory_p=0.25, lambdas_p=0.25)
     if r.random() < 0.3:
         cands = [n for n in p0["nodes"] if n["kind"] == "mem" and n["name"] != "m1"]
         if cands:
@@ -89,7 +89,7 @@ def history_c01(r, quick):
 def history_c03(r, quick):
     p0 = vprogs.random_prog(r, nmem=r.choice([2, 3, 4]), nplain=r.choice([1, 2]), nvar=2, hidden_p=0.0,
                             forms=("bare", "bare", "attr", "alias", "wrapped", "wrapped2"), init_p=0.4, twins_p=0.5, late_p=0.5,
-                            shapes_p=0.5, factory_p=0.6)
+                            shapes_p=0.5, factory_p=0.6, lambdas_p=0.6)
     names = [n["name"] for n in p0["nodes"] if n["kind"] in ("mem", "plain")]
     mems = [n for n in names if n.startswith("m")]
     steps = []
@@ -110,7 +110,7 @@ def history_c03(r, quick):
 
 def history_c13(r, quick):
     p0 = vprogs.random_prog(r, nmem=r.choice([2, 3]), nplain=r.choice([1, 2]), nvar=2, hidden_p=0.0,
-                            forms=("bare", "attr", "alias", "alias"), init_p=0.2, twins_p=0.2, late_p=0.2, shapes_p=0.5, factory_p=0.2)
+                            forms=("bare", "attr", "alias", "alias"), init_p=0.2, twins_p=0.2, late_p=0.2, shapes_p=0.5, factory_p=0.2, lambdas_p=0.2)
     # a reference to a symbol that does not exist yet
     if r.random() < 0.5:
         r.choice([n for n in p0["nodes"] if n["kind"] in ("mem", "plain")])["refs"].append({"to": "u1", "form": "bare"})
@@ -133,7 +133,7 @@ def history_c13(r, quick):
         elif x < 0.8:
             # swap a function between memento and plain (and back)
             cands = [n for n in p["nodes"] if n["kind"] in ("mem", "plain") and n["name"] != "m1" and not n.get("cls")
-                     and n.get("where") != "init" and not n.get("post") and not n.get("factory")]
+                     and n.get("where") != "init" and not n.get("post") and not n.get("factory") and not n.get("lam")]
             if not cands:
                 continue
             n = r.choice(cands)
@@ -293,14 +293,14 @@ def history_aba(r, prop):
 
 
 DIRECTED = ["slot:body", "slot:const", "slot:dflt", "slot:kwd", "slot:nested", "slot:setc", "slot:tup", "var", "var_mutate",
-            "addref", "delref", "init_helper", "twin_sm", "late_var", "late_var_mutate", "factory"]
+            "addref", "delref", "init_helper", "twin_sm", "late_var", "late_var_mutate", "factory", "lambda"]
 
 
 def history_directed(r, prop, kind, inproc):
     """One edit of a given kind to something m1 (transitively) uses, delivered in-process or by a new process,
     with m1 asked before and after: every kind of edit is exercised in every run, not only when the dice say so."""
     feat = {"init_helper": {"init_p": 1.0}, "twin_sm": {"twins_p": 1.0}, "late_var": {"late_p": 1.0},
-            "late_var_mutate": {"late_p": 1.0}, "factory": {"factory_p": 1.0}}.get(kind, {})
+            "late_var_mutate": {"late_p": 1.0}, "factory": {"factory_p": 1.0}, "lambda": {"lambdas_p": 1.0}}.get(kind, {})
     feat = dict(feat, shapes_p=0.6)
     for _ in range(200):
         p0 = vprogs.random_prog(r, nmem=r.choice([2, 3]), nplain=r.choice([1, 2]), nvar=2, hidden_p=0.0, **feat)
@@ -318,6 +318,12 @@ def history_directed(r, prop, kind, inproc):
                 n = c[0]
                 n["slots"][r.choice(vprogs.SLOTS)] += 1
                 ed = {"edit": "init_helper", "name": n["name"]}
+        elif kind == "lambda":
+            c = [n for n in fns if n.get("lam")]
+            if c:
+                n = r.choice(c)
+                n["slots"][r.choice(["body", "const", "dflt"])] += 3
+                ed = {"edit": "lambda", "name": n["name"]}
         elif kind == "factory":
             c = [n for n in fns if n.get("factory")]
             if c:
